@@ -3,15 +3,20 @@
 # the named property's check report a VIOLATION; the unpatched tree must report none.
 # usage: tools/selftest.sh [name-substring]
 cd /verif
+mkdir -p /verif/work
 fail=0
+if [ -z "$1" ]; then
+  # the scripted-peer replay oracle itself: hand-picked scripts against the current (unchanged) tree
+  if ./bin/bmcvc replaycheck > /verif/work/replaycheck.out 2>&1; then echo "ok   replay oracle check ($(grep -c '^ok' /verif/work/replaycheck.out) cases)"; else echo "MISS replay oracle check"; cat /verif/work/replaycheck.out; fail=1; fi
+fi
 run() { # name prop patch
   if ! git -C /repo apply --check "$3" 2>/dev/null; then echo "SKIP $1 (patch does not apply to the current tree)"; return; fi
   git -C /repo apply "$3"
   out=$(./check "$2" quick 2>&1); rc=$?
   git -C /repo checkout -- .
-  if [ $rc -eq 1 ] && echo "$out" | grep -q "^VIOLATION property=$2"; then echo "ok   $1 -> $2 violation detected ($(echo "$out" | grep -c '^VIOLATION') obligations)"; else echo "MISS $1 -> $2 exit=$rc"; fail=1; fi
+  if [ $rc -eq 1 ] && echo "$out" | grep -q "^VIOLATION property=$2"; then echo "ok   $1 -> $2 violation detected ($(echo "$out" | grep -c '^VIOLATION') obligations, $(echo "$out" | grep '^VIOLATION' | grep -vc 'no-failing-input-found') with a confirmed replay)"; else echo "MISS $1 -> $2 exit=$rc"; fail=1; fi
 }
-python3 - "$1" <<'PY' > /tmp/selftest.list
+python3 - "$1" <<'PY' > /verif/work/selftest.list
 import json,sys,os,glob
 pat=sys.argv[1] if len(sys.argv)>1 else ''
 for e in json.load(open('/verif/selftest/canaries/index.json')):
@@ -21,5 +26,5 @@ for d in sorted(glob.glob('/verif/seeded/*')):
     n=os.path.basename(d)
     if pat in n: print('seeded-'+n,m['property'],d+'/patch.diff')
 PY
-while read n p f; do run "$n" "$p" "$f"; done < /tmp/selftest.list
+while read n p f; do run "$n" "$p" "$f"; done < /verif/work/selftest.list
 exit $fail
